@@ -148,7 +148,7 @@ def run_tlc(
     finished = ("Model checking completed. No error has been found" in raw
                 or (simulate is not None and "Error:" not in raw and p.returncode == 0))
     if not finished:
-        lines = [ln for ln in raw.splitlines() if not ln.lstrip().startswith(("|", "line ")) and not ln.startswith(("<", "Parsing", "Semantic", "Linting"))]
+        lines = [ln for ln in raw.splitlines() if not ln.lstrip().startswith(("|", "line ")) and not ln.startswith(("<", "Parsing", "Semantic", "Linting", "State ", "/\\", '"'))]
         errs = [i for i, ln in enumerate(lines) if ln.startswith("Error:")]
         start = errs[0] if errs else max(0, len(lines) - 40)
         tail = "\n".join(lines[start:start + 40])
